@@ -356,6 +356,8 @@ class MQTTProtocol(MQTTBaseProtocol):
             self._purgeSession(MQTTSessionCleared(), inherited=True)
         else:
             self._syncSession()
+        # the window may have room now for messages that were held back
+        self._refillPublish(dup=False)
         if self.onMqttConnectionMade:
             self.onMqttConnectionMade()
 
